@@ -638,8 +638,10 @@ func AuthResponseFormPost(res http.ResponseWriter, redirectURI string, response 
 }
 
 func setFragment(uri *url.URL, params url.Values) string {
-	uri.Fragment = params.Encode()
-	return uri.String()
+	// params.Encode() is already percent-encoded: assigning it to uri.Fragment would
+	// make uri.String() escape it a second time ("a+b" would arrive as "a%2Bb").
+	uri.Fragment, uri.RawFragment = "", ""
+	return uri.String() + "#" + params.Encode()
 }
 
 func mergeQueryParams(uri *url.URL, params url.Values) string {
